@@ -453,6 +453,30 @@ func init() {
 		}
 		return uint64(n), true
 	}
+	// zzFireTimer(t *time.Timer) bool: time passes and the timer expires - if it is armed. The
+	// callback of a time.AfterFunc timer runs as a goroutine of its own (as in the runtime), channel
+	// timers are not supported here. Afterwards Stop reports false, as for a fired timer.
+	// Returns false (and does nothing) for a nil, stopped or already fired timer.
+	harnessAPI["zzFireTimer"] = func(m *Machine, fr *frame, fn *ssa.Function, args []value) (value, bool) {
+		p, _ := args[0].(*value)
+		if p == nil {
+			return false, true
+		}
+		for _, t := range m.sync().timers {
+			if t.cell != p || t.stopped || t.ticker {
+				continue
+			}
+			t.stopped = true
+			if t.fn != nil {
+				nco := m.newCo("timer-callback")
+				m.startCall(nco, t.fn, nil)
+			} else {
+				m.unsupported("zzFireTimer on a channel timer")
+			}
+			return true, true
+		}
+		return false, true
+	}
 	harnessAPI["zzTimersCreated"] = func(m *Machine, fr *frame, fn *ssa.Function, args []value) (value, bool) {
 		return uint64(len(m.sync().timers)), true
 	}
